@@ -72,10 +72,7 @@ theorem connOnlyAct_inv (m : Mon) (sid : Nat) (L : Int) (hL : 0 ≤ L) (h : MInv
   split
   · exact ⟨h1, h2, h3, h4⟩
   · refine ⟨by simp only; omega, h2, ?_, by simp only; omega⟩
-    simp only
-    split
-    · exact updStatus_inv _ _ (fun _ => .closed) h3
-    · exact h3
+    exact updStatus_inv _ _ (fun _ => .closed) h3
 
 theorem dataAct_inv (m : Mon) (sid : Nat) (len pad : Int) (es : Bool) (h : MInv m) :
     MInv (dataAct m sid len pad es).m := by
@@ -315,7 +312,7 @@ theorem liveLine_inv (m m' : Mon) (act : Act) (obs : List Obs) (h : MInv m) (hs 
   · split at hs
     · split at hs
       · cases hs
-      · exact obsFold_inv _ _ _ _ ha hs
+      · exact obsFold_inv _ _ _ _ (setStatus_inv _ _ _ ha) hs
     · cases hf : obsFold none (actStep m act).m obs with
       | error e => simp only [hf] at hs; cases hs
       | ok m1 =>
